@@ -42,6 +42,7 @@ class Case:
         undisturbed run; a wrong result there is a failing input by itself)."""
         self.name, self.conf, self.msg, self.stages, self.devmap, self.stdin_mode, self.final_dir = name, conf, msg, stages, tuple(devmap), stdin_mode, final_dir
         self.exact = exact
+        self.fieldcheck = False     # hostile_cases: also compare the field NAMES of the rewritten header block (independent of the driver)
 
     def spec(self):
         tree = {}
@@ -181,6 +182,77 @@ def lookup_cases(tier):
     return C
 
 
+# existing header values whose RFC 2047 encoded words decode to line breaks, CR, control bytes, leading blanks: (name, raw text, decoded)
+HOSTILE = [('nl2', b'=?utf-8?Q?a=0A=0AX?=', b'a\n\nX'),
+           ('nl1', b'=?utf-8?Q?a=0Ab?=', b'a\nb'),
+           ('cr', b'=?utf-8?Q?a=0Db?=', b'a\rb'),
+           ('crlf', b'=?utf-8?Q?a=0D=0A=0D=0Ab?=', b'a\r\n\r\nb'),
+           ('b64nl', b'=?utf-8?B?YQoKYg==?=', b'a\n\nb'),
+           ('trailnl', b'=?utf-8?Q?a=0A?=', b'a\n'),
+           ('hdrlike', b'=?utf-8?Q?a=0ATo:_evil@example.com=0A=0Abody?=', b'a\nTo: evil@example.com\n\nbody'),
+           ('leadnl', b'=?utf-8?Q?=0Aa?=', b'\na'),
+           ('leadsp', b'=?utf-8?Q?_a?=', b' a'),
+           ('leadtab', b'=?utf-8?Q?=09a?=', b'\ta'),
+           ('ctl', b'=?utf-8?Q?a=01=1F=7Fb?=', b'a\x01\x1f\x7fb'),
+           ('two', b'=?utf-8?Q?a=0A?= =?utf-8?Q?=0Ab?=', b'a\n\nb')]
+
+
+def header_names(data):
+    """Field names of the header block, line by line; None if a line of the block is neither a field start nor a continuation."""
+    names = []
+    for ln in data.split(b'\n\n', 1)[0].split(b'\n'):
+        if ln[:1] in (b' ', b'\t') and names:
+            continue
+        k, sep, _ = ln.partition(b':')
+        if not sep or not k or b' ' in k:
+            return None
+        names.append(k.lower())
+    return names
+
+
+def hostile_cases(tier):
+    """Message content that ends up in a header being SET: `label` appends to the existing X-Label text as message_get_header returns
+    it (unfolded, RFC 2047-DECODED), and `\\1` in label / add-header inserts a capture of a decoded header value.  The decoded text can
+    hold line breaks, CR, control bytes and leading blanks.  Whatever it holds, the rewritten file must keep every other field and
+    the body (Spec.rewriteOk, and the field names of its header block compared directly), with the set header present once.
+    Expected values: label = existing values with LF / CR turned into a space (mdsort 71eba6c), joined, + the new label; a capture of
+    `(.*)` / `([^x]*)` = the text up to the first line break (REG_NEWLINE); a reader does not see blanks after the colon, so the
+    expected value is given without leading blanks.  Undisturbed runs only."""
+    C = []
+    md = 'maildir "%s/src" {\n\tmatch %%s\n}\n' % R
+    san = lambda v: v.replace(b'\n', b' ').replace(b'\r', b' ')
+    seen = lambda v: v.lstrip(b' \t')
+    line1 = lambda v: v.split(b'\n')[0]
+    for hn, raw, dec in HOSTILE:
+        m = b'To: user1@example.com\nX-Id: 1\nX-Label: ' + raw + b'\nSubject: after the label\nX-Trailer: last\n\nthe body\nsecond line\n'
+        acts = [('label', 'all label "new"', [[(XL, seen(san(dec) + b' new'))]]),
+                ('label-add', 'all label "new" add-header "X-Added" "v1"', [[(XL, seen(san(dec) + b' new'))], [(XL, seen(san(dec) + b' new')), (XA, b'v1')]])]
+        if tier != 'quick':
+            acts.append(('label2', 'all label "n1" label "n2"', [[(XL, seen(san(dec) + b' n1'))], [(XL, seen(san(dec) + b' n1 n2'))]]))
+        for an, act, stages in acts:
+            c = Case('hostile-xlabel-%s-%s' % (hn, an), md % act, m, stages, exact=True)
+            c.fieldcheck = True
+            C.append(c)
+        # two X-Label fields: both are copied, the second field disappears
+        m2 = m.replace(b'X-Trailer: last\n', b'X-Label: second\nX-Trailer: last\n')
+        c = Case('hostile-xlabel2-%s' % hn, md % 'all label "new"', m2, [[(XL, seen(san(dec) + b' second new'))]], exact=True)
+        c.fieldcheck = True
+        C.append(c)
+        # the decoded value as a capture
+        ms = b'To: user1@example.com\nSubject: ' + raw + b'\nX-Id: 1\nX-Trailer: last\n\nthe body\nsecond line\n'
+        pats = [('dot', '(.*)'), ('neg', '([^x]*)')] if tier != 'quick' else [('dot', '(.*)')]
+        for pn, pat in pats:
+            cap = line1(dec)
+            for an, act, stages in [('add', 'add-header "X-Copy" "\\1"', [[(b'X-Copy', seen(cap))]]),
+                                    ('label', 'label "\\1"', [[(XL, seen(cap))]])]:
+                if an == 'label' and not seen(cap):
+                    continue        # an empty label is a story of its own
+                c = Case('hostile-capture-%s-%s-%s' % (hn, pn, an), md % ('header "Subject" /%s/ %s' % (pat, act)), ms, stages, exact=True)
+                c.fieldcheck = True
+                C.append(c)
+    return C
+
+
 def plans(case, clean, tier, final_len):
     calls = clean.calls()
     out = []
@@ -282,6 +354,16 @@ def judge(case, r, cls):
         if k == 'corrupt':
             probs.append('%s (%d bytes) is neither the original message (%d bytes) nor a complete rewrite of it (Spec.rewriteOk rejects it for '
                          'every step of the rule): truncated or altered' % (rel, n, len(case.msg)))
+    if case.fieldcheck and r.get('blobs'):
+        want = [n for n in header_names(case.msg)]
+        setn = [k.lower() for k, _ in case.stages[-1]]
+        keep = [n for n in want if n not in setn]
+        for rel, h, n in r['files']:
+            got = header_names(r['blobs'][h])
+            if got is None:
+                probs.append('%s: the header block of the rewritten file has a line that is neither a field nor a continuation' % rel)
+            elif [n for n in got if n not in setn] != keep or sorted(n for n in got if n in setn) != sorted(set(setn)):
+                probs.append('%s: field names of the rewritten header block %r, expected the original ones %r with %r once each' % (rel, got, want, setn))
     if r['status'] not in (0, 1, 75):
         probs.append('abnormal exit status %r: %s' % (r['status'], r['stderr']))
     good = [x for x in kinds if x[1] != 'corrupt']
@@ -297,7 +379,7 @@ def judge(case, r, cls):
 
 
 def stage(rep, tools):
-    cs = cases(rep.tier) + exact_cases(tools.sc.src, rep.tier) + lookup_cases(rep.tier)
+    cs = cases(rep.tier) + exact_cases(tools.sc.src, rep.tier) + lookup_cases(rep.tier) + hostile_cases(rep.tier)
     recs, blobs = [], {}
     with cf.ThreadPoolExecutor(min(vlib.NCPU, len(cs))) as ex:
         for rr, bb in ex.map(lambda c: sweep(tools, c, rep.tier), cs):
@@ -308,6 +390,8 @@ def stage(rep, tools):
     nbad, outcome = 0, {}
     for r in recs:
         c = by_name[r['scenario']]
+        if c.fieldcheck:
+            r = dict(r, blobs=blobs)
         probs, kinds = judge(c, r, cls)
         if r['plan'] is None and c.exact:
             key = 'exact sizes: ' + ('as documented' if r['status'] == 0 and not probs else 'WRONG')
@@ -316,7 +400,7 @@ def stage(rep, tools):
                 nbad += 1
                 if nbad <= 6:
                     hdr = c.msg.index(b'\n\n') + 2
-                    rep.finding('unlisted', {'stage': 'process', 'family': 'read before rewrite' if c.name.startswith('lookup-') else 'exact sizes', 'scenario': c.name, 'config': c.conf, 'message_bytes': len(c.msg),
+                    rep.finding('unlisted', {'stage': 'process', 'family': 'read before rewrite' if c.name.startswith('lookup-') else 'message content in the header being set' if c.name.startswith('hostile-') else 'exact sizes', 'scenario': c.name, 'config': c.conf, 'message_bytes': len(c.msg),
                                              'header_block_bytes': hdr, 'message_head': c.msg[:hdr][:1500].decode('latin-1'),
                                              'intended_settings': [[(k.decode(), '%d bytes: %s' % (len(v), (v[:40] + b'...' + v[-20:] if len(v) > 70 else v).decode('latin-1')))
                                                                     for k, v in st] for st in c.stages],
@@ -341,6 +425,11 @@ def stage(rep, tools):
     faults = [r for r in recs if r['plan'] is not None]
     return {
         'exact_size_scenarios': sum(1 for c in cs if c.exact),
+        'message_content_in_set_header_scenarios': sum(1 for c in cs if c.fieldcheck),
+        'message_content_in_set_header_rule': 'existing X-Label / Subject values whose encoded words decode to LF, CRLF, CR, control bytes, leading LF / SP / TAB, a '
+                                              'header look-alike, two adjacent words; label (appends to the decoded text), label twice, label + add-header, two '
+                                              'X-Label fields, and the decoded value captured by (.*) / ([^x]*) into add-header / label; judged by Spec.rewriteOk '
+                                              'for the value a reader sees and by the field names of the rewritten header block',
         'exact_size_rule': 'undisturbed runs in which a value being built, the header block or the whole message ends exactly on, one below and one above a '
                            'capacity of the growable buffer it passes through (sizes read from the buffer_alloc() calls of the source): existing X-Label value + '
                            'new label, label / add-header value from a capture alone and after literal text, label + add-header; whole message and header '
@@ -361,7 +450,7 @@ def stage(rep, tools):
 
 
 def replay(tools, j):
-    cs = [c for c in cases('thorough') + exact_cases(tools.sc.src, 'thorough') + lookup_cases('thorough') if c.name == j.get('scenario')]
+    cs = [c for c in cases('thorough') + exact_cases(tools.sc.src, 'thorough') + lookup_cases('thorough') + hostile_cases('thorough') if c.name == j.get('scenario')]
     if not cs:
         print('unknown scenario', j.get('scenario'))
         return
@@ -375,7 +464,7 @@ def replay(tools, j):
     for rel, data in sorted(ws.maildir_files(r.final).items()):
         blobs[sha(data)] = data
         fs.append((rel, sha(data), len(data)))
-    rec = {'scenario': c.name, 'plan': plan, 'status': r.status, 'files': fs, 'stderr': r.err[-300:].decode('latin-1')}
+    rec = {'scenario': c.name, 'plan': plan, 'status': r.status, 'files': fs, 'stderr': r.err[-300:].decode('latin-1'), 'blobs': blobs}
     cls, _ = classify_all([c], [rec], blobs)
     probs, kinds = judge(c, rec, cls)
     print('scenario', c.name, 'plan', plan, 'original %d bytes' % len(c.msg))
